@@ -35,7 +35,7 @@ func vRefTemplate(x, y byte) (root string, body string, names []string) {
 	case 9:
 		return "{ // {allOf: [\"" + X + "\", \"" + Y + "\"]}\n  \"own\": " + X + "\n}", `{}`, []string{X, Y, X}
 	case 10: // a QUOTED key that looks like a type name is a plain key; its value is scanned
-		return `{"` + X + `": {"k": ` + Y + `}, "z": [` + Y + `]}`, `1`, []string{Y}
+		return `{"` + X + `": {"k": ` + Y + `}, "z": 1}`, `1`, []string{Y}
 	case 11: // allOf on an own member below another allOf object
 		return "{ // {allOf: \"" + X + "\"}\n  \"inner\": { // {allOf: \"" + Y + "\"}\n    \"deep\": 1\n  }\n}", `{}`, []string{X, Y}
 	default: // rule sets (unnamed types) in the root and in the registered types, all in files of the same name
